@@ -68,10 +68,11 @@ def bastion_part(work, rep, tier, seed, prop):
         return {"op": "post", "kind": kind, "log": "l1"}
     R12, R23, R13 = {"k": "right", "b": 0, "m": 1, "n": 2}, {"k": "right", "b": 0, "m": 2, "n": 3}, {"k": "right", "b": 0, "m": 1, "n": 3}
     junk = [bad(k_) for k_ in MALFORMED] + [bad("unknown-origin")]
-    refused = junk * 8 + [ok(0, 0, 1, E), ok(3, 0, 2, E), ok(1, 0, 2, {"k": "bad", "kind": "flip"}), ok(1, 0, 2, E, auth="badsig"), ok(1, 1, 1, E, auth="nosig")] * 3
+    refused = junk * 8 + [ok(0, 0, 1, E), ok(3, 0, 2, E), ok(1, 0, 2, {"k": "bad", "kind": "flip"}), ok(1, 0, 2, E, auth="badsig"), ok(1, 1, 1, E, auth="nosig"),
+                          ok(1, 0, 2, R12, auth="trailingblank"), ok(1, 0, 1, E, auth="trailingblank")] * 3
     runs = [
         {"id": "ep-refusals-then-honest", "limit": 100000, "steps": [ok(0, 0, 1, E)] + refused + [ok(1, 0, 2, R12), ok(2, 0, 2, E)] + junk * 5 + [ok(2, 0, 3, R23)]},
-        {"id": "ep-refusals-first", "limit": 100000, "steps": junk * 9 + [ok(0, 0, 1, E), ok(1, 0, 3, R13)]},
+        {"id": "ep-refusals-first", "limit": 100000, "steps": junk * 9 + [ok(0, 0, 1, E, auth="trailingblank")] * 3 + [ok(0, 0, 1, E), ok(1, 0, 3, R13)]},
         {"id": "ep-own-key-lines", "limit": 100000, "steps": [ok(0, 0, 1, E, stale=1), ok(1, 0, 1, E, stale=1), ok(1, 0, 2, R12, stale=1), ok(2, 0, 2, E), ok(1, 0, 2, R12, stale=1),
                                                              ok(2, 0, 3, R23, stale=1, ext=1), ok(3, 0, 3, E, stale=1, extra=1)]},
     ]
